@@ -239,7 +239,8 @@ fn document(rng: &mut Rng) -> String {
         0..=2 => {
             // C05 shapes
             let n = 1 + rng.usize(12);
-            let nums = ["10", "10", "20", "30"];
+            // numbers of different widths (the same statement text then sits at different columns) and table boundaries
+            let nums = ["10", "10", "20", "30", "5", "100", "1000", "63999", "65536"];
             (0..n).map(|_| rng.s(c05::KINDS).replace("{n}", rng.s(&nums)).replace('\r', "")).collect::<Vec<_>>().join("\n")
         }
         3..=4 => {
@@ -282,6 +283,7 @@ fn document(rng: &mut Rng) -> String {
 }
 
 struct Stats {
+    other_document_token_requests: u64,
     offers_with_utf8_after_utf16: u64,
     late_publishes: u64,
     max_diags: u64,
@@ -366,8 +368,9 @@ fn session(rng: &mut Rng, stats: &mut Stats, nontrivial: &mut Vec<u64>) -> Resul
         matches!((a, b), (Some(a), Some(b)) if a < b) as u64
     }).unwrap_or(0);
     srv.notify("initialized", json!({})).map_err(inc)?;
-    let uris = ["file:///a.bas", "file:///b.bas", "file:///dir/c%20d.bas"];
-    let n_uris = 1 + rng.usize(3);
+    // (the last three differ from the first only outside the path: they are different documents all the same)
+    let uris = ["file:///a.bas", "file:///b.bas", "file:///dir/c%20d.bas", "file:///a.bas?rev=2", "git:/a.bas?%7B%22ref%22%3A%22HEAD%22%7D", "file:///a.bas#frag"];
+    let n_uris = 1 + rng.usize(6);
     let mut latest: Vec<Option<String>> = vec![None; n_uris];
     // document versions the way an editor counts them: 1 at every didOpen, +1 per change (so they start over after a re-open)
     let mut version: Vec<u64> = vec![0; n_uris];
@@ -584,6 +587,44 @@ fn session(rng: &mut Rng, stats: &mut Stats, nontrivial: &mut Vec<u64>) -> Resul
                 return Err(("token-list".into(), format!("semantic tokens differ from the analyzer's token types at #{}: server {:?}, analyzer {:?}", i, decoded.get(i), want_tokens.get(i)), doc_json));
             }
         }
+        // now and then also ask for the tokens of ANOTHER open document (not the one analysed last): it must still be
+        // answered from that document's own latest text
+        if rng.chance(1, 4) {
+            let others: Vec<usize> = (0..n_uris).filter(|v| *v != u && latest[*v].as_ref().map(|t| !t.split('\n').any(|l| l.len() > 4_000)).unwrap_or(false)).collect();
+            if !others.is_empty() {
+                let v = others[rng.usize(others.len())];
+                let other_text = latest[v].clone().unwrap();
+                let id = srv.request("textDocument/semanticTokens/full", json!({"textDocument": {"uri": uris[v]}})).map_err(inc)?;
+                let resp = match srv.wait_for(|m| m.get("id").and_then(|x| x.as_u64()) == Some(id)) {
+                    Ok(m) => m,
+                    Err(Wait::Died(st)) => return Err(("server-died".into(), format!("the server died on a semantic token request ({})", st), doc_json)),
+                    Err(Wait::Timeout) => return Err(inc("no semantic token response while the server is alive".into())),
+                };
+                let data: Vec<u64> = resp.pointer("/result/data").and_then(|x| x.as_array()).map(|a| a.iter().map(|v| v.as_u64().unwrap_or(u64::MAX)).collect()).unwrap_or_default();
+                let (mut line, mut col) = (0u64, 0u64);
+                let mut decoded = vec![];
+                for c in data.chunks(5) {
+                    if c.len() < 5 {
+                        break;
+                    }
+                    if c[0] > 0 {
+                        line = line.saturating_add(c[0]);
+                        col = c[1];
+                    } else {
+                        col = col.saturating_add(c[1]);
+                    }
+                    decoded.push((line as u32, col as u32, c[2] as u32, c[3] as u32));
+                }
+                let (_, want) = expected(&other_text);
+                stats.other_document_token_requests += 1;
+                if decoded != want {
+                    let i = decoded.iter().zip(want.iter()).position(|(a, b)| a != b).unwrap_or(decoded.len().min(want.len()));
+                    return Err(("token-list-other-document".into(),
+                        format!("tokens requested for {} (not the document analysed last, which was {}) differ from the analyzer's token types for ITS latest text at #{}: server {:?}, analyzer {:?}", uris[v], uri, i, decoded.get(i), want.get(i)),
+                        json!({"uri": uris[v], "its_text": other_text.split('\n').collect::<Vec<_>>(), "document_analysed_last": doc_json})));
+                }
+            }
+        }
     }
     // orderly shutdown
     let id = srv.request("shutdown", Value::Null).map_err(inc)?;
@@ -618,7 +659,7 @@ fn session(rng: &mut Rng, stats: &mut Stats, nontrivial: &mut Vec<u64>) -> Resul
 
 fn run_case(ctx: &Ctx, index: u64, rep: &mut Report) {
     let mut rng = ctx.rng(index);
-    let mut stats = Stats { offers_with_utf8_after_utf16: 0, late_publishes: 0, max_diags: 0, bursts: 0, burst_notifications: 0, docs: 0, diags: 0, tokens: 0, non_ascii_docs: 0, token_requests: 0 };
+    let mut stats = Stats { other_document_token_requests: 0, offers_with_utf8_after_utf16: 0, late_publishes: 0, max_diags: 0, bursts: 0, burst_notifications: 0, docs: 0, diags: 0, tokens: 0, non_ascii_docs: 0, token_requests: 0 };
     let mut nontrivial = vec![];
     let r = session(&mut rng, &mut stats, &mut nontrivial);
     rep.add("documents", stats.docs);
@@ -627,6 +668,7 @@ fn run_case(ctx: &Ctx, index: u64, rep: &mut Report) {
     rep.add("semantic_token_requests", stats.token_requests);
     rep.add("non_ascii_documents", stats.non_ascii_docs);
     rep.add("bursts", stats.bursts);
+    rep.add("token_requests_for_another_open_document", stats.other_document_token_requests);
     rep.add("sessions_offering_utf8_after_utf16", stats.offers_with_utf8_after_utf16);
     rep.add("burst_notifications", stats.burst_notifications);
     rep.add("tolerated.publish_after_barrier", stats.late_publishes);
